@@ -22,6 +22,8 @@ def run(chk, tier):
         from props import ctor
         ctor.builder_constructors(chk, F, 'R02.0', cfg)
         B.conversion_table(chk, F, 'R02.7', cfg)
+        efn, epaths, erows = E.eval_dyn_table(chk, F, 'R02.8.table', cfg)
+        E.counting_discipline(chk, F, 'R02.8', cfg, efn, erows)
         position_is_rmw(chk, F, 'R02.3', cfg)
         segment_lookup(chk, F, 'R02.4', cfg)
         E.eval_table(chk, F, 'R02.5', cfg)
